@@ -46,6 +46,9 @@ pub fn write_corpus(spec: &CorpusSpec, nlibs: usize) -> PathBuf {
     };
     let nlibs = nlibs.max(1).min(spec.programs.len().max(1));
     let mut members = vec!["\"corp\"".to_string()];
+    // crate names are unique per corpus: workspaces share one target directory and cargo
+    // hashes workspace members by name/version/relative path only
+    let lib_name = |i: usize| format!("{}_l{i}", spec.name);
     for i in 0..nlibs {
         members.push(format!("\"lib{i}\""));
     }
@@ -75,7 +78,8 @@ pub fn write_corpus(spec: &CorpusSpec, nlibs: usize) -> PathBuf {
     for (i, progs) in lib_progs.iter().enumerate() {
         let ldir = dir.join(format!("lib{i}"));
         let toml = format!(
-            "[package]\nname = \"lib{i}\"\nversion = \"0.1.0\"\nedition = \"2021\"\n\n[dependencies]\n{dep}\nsvrt = {{ path = \"{VERIF}/engine/svrt\" }}\n"
+            "[package]\nname = \"{}\"\nversion = \"0.1.0\"\nedition = \"2021\"\n\n[dependencies]\n{dep}\nsvrt = {{ path = \"{VERIF}/engine/svrt\" }}\n",
+            lib_name(i)
         );
         write_if_changed(&ldir.join("Cargo.toml"), &toml);
         let mut librs = String::from("#![allow(unused_imports, dead_code)]\n");
@@ -104,15 +108,15 @@ pub fn write_corpus(spec: &CorpusSpec, nlibs: usize) -> PathBuf {
     let cdir = dir.join("corp");
     let mut deps = format!("svrt = {{ path = \"{VERIF}/engine/svrt\" }}\n");
     for i in 0..nlibs {
-        deps.push_str(&format!("lib{i} = {{ path = \"../lib{i}\" }}\n"));
+        deps.push_str(&format!("{} = {{ path = \"../lib{i}\" }}\n", lib_name(i)));
     }
     write_if_changed(
         &cdir.join("Cargo.toml"),
-        &format!("[package]\nname = \"corp\"\nversion = \"0.1.0\"\nedition = \"2021\"\n\n[dependencies]\n{deps}"),
+        &format!("[package]\nname = \"corp_{}\"\nversion = \"0.1.0\"\nedition = \"2021\"\n\n[dependencies]\n{deps}", spec.name),
     );
     let mut main = String::from("fn main() {\n    let mut v: Vec<fn() -> svrt::Prog> = vec![];\n");
     for i in 0..nlibs {
-        main.push_str(&format!("    v.extend(lib{i}::programs());\n"));
+        main.push_str(&format!("    v.extend({}::programs());\n", lib_name(i)));
     }
     main.push_str("    svrt::props::run_main(v);\n}\n");
     write_if_changed(&cdir.join("src/main.rs"), &main);
